@@ -283,4 +283,4 @@ def rules(repo, tier):
                                                       'before it is complete - a later call with the same object and other contents must not be answered from it',
                                                       ['pypose.lietensor.lietensor', 'pypose.lietensor.operation', 'pypose.lietensor.basics', 'pypose.lietensor.utils'], floor=3),
             rule_optional(repo, 'C02.OPT', ['pypose.lietensor.lietensor', 'pypose.lietensor.operation', 'pypose.lietensor.basics', 'pypose.lietensor.utils'])] + mode_rules(repo, 'C02', ['pypose.lietensor.lietensor', 'pypose.lietensor.operation', 'pypose.lietensor.basics', 'pypose.lietensor.utils']) + [rule_callsig(repo, 'C02.SIG', ['pypose.lietensor.lietensor', 'pypose.lietensor.operation', 'pypose.lietensor.basics', 'pypose.lietensor.utils']), rule_docsig(repo, 'C02.DOC', ['pypose.lietensor.lietensor', 'pypose.lietensor.operation', 'pypose.lietensor.basics', 'pypose.lietensor.utils'])] + [
-            rule_axisdefault(repo, 'C02.AXDEF', ['pypose.lietensor.lietensor', 'pypose.lietensor.operation', 'pypose.lietensor.basics', 'pypose.lietensor.utils', 'pypose.lietensor.convert', 'pypose.basics.ops']), __import__('sa.axisdefault', fromlist=['x']).rule_frontaxis(repo, 'C02.BAX', ['pypose.lietensor.lietensor', 'pypose.lietensor.operation', 'pypose.lietensor.basics', 'pypose.lietensor.utils', 'pypose.lietensor.convert']), __import__('sa.axisdefault', fromlist=['x']).rule_regroup(repo, 'C02.REGROUP', ['pypose.lietensor.lietensor', 'pypose.lietensor.operation', 'pypose.lietensor.basics', 'pypose.lietensor.utils', 'pypose.lietensor.convert']), __import__('sa.axisdefault', fromlist=['x']).rule_batchbranch(repo, 'C02.BIF', ['pypose.lietensor.lietensor', 'pypose.lietensor.operation', 'pypose.lietensor.basics', 'pypose.basics.ops'])]
+            rule_axisdefault(repo, 'C02.AXDEF', ['pypose.lietensor.lietensor', 'pypose.lietensor.operation', 'pypose.lietensor.basics', 'pypose.lietensor.utils', 'pypose.lietensor.convert', 'pypose.basics.ops']), __import__('sa.axisdefault', fromlist=['x']).rule_frontaxis(repo, 'C02.BAX', ['pypose.lietensor.lietensor', 'pypose.lietensor.operation', 'pypose.lietensor.basics', 'pypose.lietensor.utils', 'pypose.lietensor.convert']), __import__('sa.axisdefault', fromlist=['x']).rule_regroup(repo, 'C02.REGROUP', ['pypose.lietensor.lietensor', 'pypose.lietensor.operation', 'pypose.lietensor.basics', 'pypose.lietensor.utils', 'pypose.lietensor.convert']), __import__('sa.axisdefault', fromlist=['x']).rule_zerocmp(repo, 'C02.ZEROCMP', ['pypose.lietensor.lietensor', 'pypose.lietensor.operation', 'pypose.lietensor.basics', 'pypose.lietensor.utils', 'pypose.lietensor.convert']), __import__('sa.axisdefault', fromlist=['x']).rule_batchbranch(repo, 'C02.BIF', ['pypose.lietensor.lietensor', 'pypose.lietensor.operation', 'pypose.lietensor.basics', 'pypose.basics.ops'])]
